@@ -127,11 +127,15 @@ impl Check for C07 {
         tier.pick(std::time::Duration::from_secs(220), std::time::Duration::from_secs(1500))
     }
     fn required_counters(&self, _tier: Tier) -> Vec<&'static str> {
-        vec!["deliveries:pad", "deliveries:tx", "deliveries:reg", "rounds:concurrent", "rounds:single", "path:PaidUpload", "path:UnpaidUpdate", "path:Replication"]
+        vec!["deliveries:pad", "deliveries:tx", "deliveries:reg", "rounds:concurrent", "rounds:single", "rounds:back-to-back", "rounds:back-to-back-on-a-new-key", "path:PaidUpload", "path:UnpaidUpdate", "path:Replication"]
     }
     fn run_case(&self, cx: &mut Cx) {
         let root = scratch_dir("c07");
         let (mut sim, env) = node_sim(cx, &root, 0);
+        // half of the cases park the store's disk tasks at the gates, which allows "back-to-back" rounds: the next
+        // delivery starts as soon as the previous one has returned, while its disk write is still unacknowledged
+        let controlled = cx.rng.gen_bool(0.5);
+        sim.set_gates_controlled(controlled);
         sim.policy = if cx.rng.gen_bool(0.5) { Policy::Random } else { Policy::Fifo };
         sim.stub.as_ref().expect("stub").set_default(Some(500));
         let node = sim.nodes[0].node.clone().expect("node layer");
@@ -174,7 +178,8 @@ impl Check for C07 {
             let rounds = cx.rng.gen_range(4..=9);
             let mut round_spans: Vec<(u64, u64, bool)> = vec![];
             for round in 0..rounds {
-                let n = if round == 0 { 1 } else { *[1usize, 1, 2, 2, 3].choose(&mut cx.rng).expect("nonempty") };
+                let back_to_back = controlled && cx.rng.gen_bool(0.3);
+                let n = if back_to_back { cx.rng.gen_range(2..=3) } else if round == 0 { 1 } else { *[1usize, 1, 2, 2, 3].choose(&mut cx.rng).expect("nonempty") };
                 let mut deliveries: Vec<Delivery> = vec![];
                 for _ in 0..n {
                     let path = if round == 0 { *[Path::PaidUpload, Path::Replication].choose(&mut cx.rng).expect("nonempty") } else { *[Path::PaidUpload, Path::UnpaidUpdate, Path::UnpaidUpdate, Path::Replication, Path::Replication].choose(&mut cx.rng).expect("nonempty") };
@@ -313,16 +318,22 @@ impl Check for C07 {
                 if deliveries.is_empty() {
                     continue;
                 }
-                let concurrent = deliveries.len() > 1;
+                let concurrent = deliveries.len() > 1 && !back_to_back;
                 if concurrent {
                     saw_concurrent = true;
                     cx.count("rounds:concurrent");
+                } else if back_to_back {
+                    cx.count("rounds:back-to-back");
+                    if round == 0 {
+                        cx.count("rounds:back-to-back-on-a-new-key");
+                    }
                 } else {
                     cx.count("rounds:single");
                 }
                 // ---- deliver all of the round at once, then let everything settle
                 let span_start = sim.steps;
                 let mut handles = vec![];
+                let mut b2b_ok = true;
                 for d in &deliveries {
                     let (n2, rec, path) = (node.clone(), d.record.clone(), d.path);
                     handles.push(sim.spawn(async move {
@@ -333,8 +344,16 @@ impl Check for C07 {
                     }));
                     cx.count(&format!("deliveries:{fam_label}"));
                     cx.count(&format!("path:{:?}", d.path));
+                    if back_to_back {
+                        // sequential at the API boundary: wait until this delivery has returned (its commands are
+                        // handled, its disk write stays parked and unacknowledged), then start the next one
+                        sim.hold_gates = true;
+                        let mut done = || handles.iter().all(|h| h.is_finished());
+                        b2b_ok &= sim.settle(&mut done);
+                        sim.hold_gates = false;
+                    }
                 }
-                let settled = {
+                let settled = b2b_ok && {
                     let mut done = || handles.iter().all(|h| h.is_finished());
                     sim.settle(&mut done)
                 };
